@@ -159,7 +159,7 @@ type c16Tamper struct {
 var c16TamperKinds = []string{
 	"acct-balance", "acct-balance", "acct-status", "acct-rewardsbase", "acct-authaddr", "acct-drop", "acct-dup", "acct-dup",
 	"res-holding", "res-holding", "res-appstate", "res-appstate", "res-drop",
-	"kv-value", "kv-value", "kv-key", "kv-drop", "kv-dup", "kv-shift",
+	"kv-value", "kv-value", "kv-key", "kv-drop", "kv-dup", "kv-shift", "acct-split",
 	"oa-field", "oa-field", "oa-drop", "oa-dup", "orp-field", "orp-drop",
 	"hdr-totals", "hdr-totals", "hdr-version", "hdr-blocksround", "spver-add",
 	"chunk-drop", "chunk-dup", "truncate",
@@ -570,6 +570,7 @@ type c16History struct {
 	blocks   []bookkeeping.Block     // index == round
 	labels   map[basics.Round]string // producer's label per catchpoint round
 	scr      cpxScript
+	rootOK   map[basics.Round]bool // DB rounds at which the producer's trie root was compared with the model
 	hadOps   int
 }
 
@@ -615,6 +616,23 @@ func (h *c16History) run(t *rapid.T, n int, scripted bool) {
 }
 
 func (h *c16History) note(t *rapid.T) {
+	// the producer's persisted balances trie equals the trie recomputed from the model (the C14 oracle, per DB round):
+	// a producer whose trie left its state is reported where it happens, not later as a file that cannot be verified
+	if d := h.w.Node.DBRound(); !h.rootOK[d] {
+		root, hashRound, err := cpxStoredRoot(h.w.Node.L)
+		want, nl, merr := cpxModelRoot(h.w.Model, d)
+		if merr != nil {
+			t.Fatalf("HARNESS: model root: %v", merr)
+		}
+		if err != nil || hashRound != d || root != want {
+			t.Fatalf("C16 VIOLATION: producer's balances trie at DB round %d: root %v (hash round %d, %v); the trie over the %d leaves recomputed from the model has root %v\n%s",
+				d, root, hashRound, err, nl, want, cpxTail(h.w, 40))
+		}
+		if h.rootOK == nil {
+			h.rootOK = map[basics.Round]bool{}
+		}
+		h.rootOK[d] = true
+	}
 	lab := h.w.Node.L.GetLastCatchpointLabel()
 	if R, ok := cpxLabelRound(lab); ok {
 		if old, ok := h.labels[R]; ok && old != lab {
@@ -902,6 +920,12 @@ func c16Run(tb *testing.T, t *rapid.T, vk *vkCtx, protos []cpxProto) {
 			vk.Excluded("kv-boundary-shift (known finding F1)")
 			kind = "kv-value"
 		}
+		if kind == "acct-split" {
+			// the known class split-account-base-unhashed (an account re-split into records marked ExpectingMoreEntries whose
+			// base data is stored but never hashed) is excluded by construction and reproduced in TestVerif_C16_KnownSplit
+			vk.Excluded("split-account-base-unhashed (known finding)")
+			kind = "acct-balance"
+		}
 		tsecs, tm, ok := c16ApplyTamper(t, kind, secs, other)
 		if !ok {
 			vk.Label("tamper-n/a:" + kind)
@@ -1090,5 +1114,159 @@ func TestVerif_C16_KnownF1(t *testing.T) {
 	if reproduced > 0 {
 		vk.Known("kv-boundary-shift", fmt.Sprintf("a catchpoint file in which box (name \"ab\", value \"c\") of an application is replaced by box (name \"a\", value \"bc\") passes BuildMerkleTrie and VerifyCatchpoint against the honest label; "+
 			"after CompleteCatchup the node serves box \"a\" = \"bc\" and no box \"ab\" (KvHashBuilderV6 hashes key||value unseparated; %d reproductions)", reproduced), firstReplay)
+	}
+}
+
+// c16SplitAccount re-splits the record of one account of the file into two records of the same address: a first one
+// marked ExpectingMoreEntries with CHANGED base account data (balance + delta) and the first half of the resources,
+// and a final one with the honest base data and the remaining resources. ok == false: no balances chunk.
+func c16SplitAccount(t *rapid.T, orig []cpxSection, prefer func(basics.Address) bool, delta uint64) (out []cpxSection, addr basics.Address, nres int, ok bool) {
+	out = c16CloneSecs(orig)
+	for i, s := range out {
+		if !cpxIsBalancesSection(s.Name) {
+			continue
+		}
+		var ch CatchpointSnapshotChunkV6
+		if err := protocol.Decode(s.Data, &ch); err != nil {
+			t.Fatalf("HARNESS: %v", err)
+		}
+		if len(ch.Balances) == 0 {
+			continue
+		}
+		var cand []int
+		for j, b := range ch.Balances {
+			if prefer(b.Address) {
+				cand = append(cand, j)
+			}
+		}
+		if len(cand) == 0 {
+			for j := range ch.Balances {
+				cand = append(cand, j)
+			}
+		}
+		j := cand[c16PickIdx(t, len(cand), "splitRec")]
+		rec := ch.Balances[j]
+		var bad trackerdb.BaseAccountData
+		if err := protocol.Decode(rec.AccountData, &bad); err != nil {
+			t.Fatalf("HARNESS: %v", err)
+		}
+		bad.MicroAlgos.Raw += delta
+		var ids []uint64
+		for id := range rec.Resources {
+			ids = append(ids, id)
+		}
+		sort.Slice(ids, func(a, b int) bool { return ids[a] < ids[b] })
+		first := encoded.BalanceRecordV6{Address: rec.Address, AccountData: msgp.Raw(protocol.Encode(&bad)), ExpectingMoreEntries: true}
+		last := encoded.BalanceRecordV6{Address: rec.Address, AccountData: rec.AccountData}
+		for k, id := range ids {
+			if k < len(ids)/2 {
+				if first.Resources == nil {
+					first.Resources = map[uint64]msgp.Raw{}
+				}
+				first.Resources[id] = rec.Resources[id]
+			} else {
+				if last.Resources == nil {
+					last.Resources = map[uint64]msgp.Raw{}
+				}
+				last.Resources[id] = rec.Resources[id]
+			}
+		}
+		nb := append([]encoded.BalanceRecordV6{}, ch.Balances[:j]...)
+		nb = append(nb, first, last)
+		nb = append(nb, ch.Balances[j+1:]...)
+		ch.Balances = nb
+		out[i].Data = protocol.Encode(&ch)
+		return out, rec.Address, len(ids), true
+	}
+	return nil, addr, 0, false
+}
+
+// TestVerif_C16_KnownSplit probes / reproduces the class split-account-base-unhashed: the base record of an account whose
+// records are marked ExpectingMoreEntries is stored (first record wins) but never hashed (only the final record's base
+// data goes into the trie), so a file in which an account is re-split into a changed first record and an honest final
+// record would verify against the honest label.
+func TestVerif_C16_KnownSplit(t *testing.T) {
+	vk := vkBegin(t, "C16")
+	vk.Rule("random history with the scripted prelude; the producer's catchpoint file of a drawn catchpoint round is changed by re-splitting one account record into a first record " +
+		"(ExpectingMoreEntries, balance + 1 Algo, first half of its resources) and a final record (honest base data, remaining resources); full catch-up of a fresh on-disk ledger with the honest label. " +
+		"Non-trivial: the tampered file was accepted and the restored ledger serves the changed balance. Distinct: by world, trace and account.")
+	protos := cpxRegisterProtos(t, "c16split")
+	reproduced := 0
+	var firstReplay any
+	rapid.Check(t, func(rt *rapid.T) {
+		proto := protos[rapid.IntRange(0, len(protos)-1).Draw(rt, "proto")]
+		h := c16BuildHistory(t, rt, vk, proto, "", true)
+		w := h.w
+		defer w.Close()
+		firstR := (proto.Lookback/h.interval + 1) * h.interval
+		h.run(rt, int(firstR)+int(w.Node.Cfg.MaxAcctLookback)+1, true)
+		rounds := h.rounds()
+		if len(rounds) == 0 {
+			rt.Fatalf("C16 VIOLATION: the producer reported no label after %d blocks\n%s", w.Model.Latest(), cpxTail(w, 40))
+		}
+		R := rounds[len(rounds)-1]
+		label := h.labels[R]
+		secs, err := cpxReadCatchpointFile(w.Ledger, R)
+		if err != nil {
+			rt.Fatalf("C16 VIOLATION: GetCatchpointStream(%d): %v", R, err)
+		}
+		accountsRound := R - basics.Round(proto.Lookback)
+		// prefer an account with resources that no block after the accounts round touches (its stored record stays as restored)
+		quiet := func(a basics.Address) bool {
+			if len(w.Model.At(accountsRound).Acct(a).Assets)+len(w.Model.At(accountsRound).Acct(a).AppLocals)+len(w.Model.At(accountsRound).Acct(a).AssetParams)+len(w.Model.At(accountsRound).Acct(a).AppParams) == 0 {
+				return false
+			}
+			return w.Model.LastChange(accountsRound, w.Model.Latest(), func(c *engcChanges) bool { return c.Accts[a] }) == 0
+		}
+		const delta = 1_000_000
+		tsecs, addr, nres, ok := c16SplitAccount(rt, secs, quiet, delta)
+		if !ok {
+			rt.Fatalf("HARNESS: no balances chunk in the file of round %d", R)
+		}
+		fp := strings.Join(w.History, "|") + "|" + addr.String()
+		vn, stage, err := c16CatchupFresh(w, rt, "victim", cpxNodeSpec{Interval: h.interval, Tracking: config.CatchpointTrackingModeTracked, TrieCache: 9000}, true, label, tsecs, h.blocks, true)
+		defer cpxCloseNode(vn)
+		if err != nil {
+			vk.Case(false, fp)
+			if i := strings.Index(stage, ":"); i > 0 {
+				stage = stage[:i]
+			}
+			vk.Label("split-rejected-at:" + stage)
+			w.tracef("re-split account %v rejected at %s: %v", addr, stage, err)
+			if vk.WantSample(false) {
+				vk.Sample(false, map[string]any{"account": addr.String(), "resources": nres, "rejectedAt": stage, "error": err.Error()})
+			}
+			return
+		}
+		vn.Quiesce()
+		got, _, lerr := vn.L.LookupWithoutRewards(R, addr)
+		want := w.Model.At(R).Acct(addr).Data
+		if lerr != nil {
+			rt.Fatalf("HARNESS: victim LookupWithoutRewards: %v", lerr)
+		}
+		if got == want {
+			// accepted but harmless: the stored record is the honest one
+			vk.Case(false, fp)
+			vk.Label("split-accepted-state-honest")
+			return
+		}
+		reproduced++
+		vk.Case(true, fp)
+		vk.Label("split-accepted-state-changed")
+		vk.Labelf("split-resources=%d", min(nres, 3))
+		tot, _ := vn.L.Totals(R)
+		rep := map[string]any{"proto": proto.CV, "label": label, "catchpointRound": R, "account": addr.String(), "resourcesOfAccount": nres,
+			"servedBalance": got.MicroAlgos.Raw, "trueBalance": want.MicroAlgos.Raw, "victimTotalsAll": tot.All().Raw, "history": w.History}
+		if firstReplay == nil {
+			firstReplay = rep
+		}
+		if vk.WantSample(true) {
+			vk.Sample(true, rep)
+		}
+	})
+	if reproduced > 0 {
+		vk.Known("split-account-base-unhashed", fmt.Sprintf("a catchpoint file in which one account record is re-split into a first record (ExpectingMoreEntries=true, balance +1 Algo) and a final record "+
+			"(honest base data) passes ProcessStagingBalances, BuildMerkleTrie and VerifyCatchpoint against the honest label; after CompleteCatchup the node serves the changed balance "+
+			"(WriteCatchpointStagingBalances stores the first record's base data, only the final record's base data is hashed; %d reproductions)", reproduced), firstReplay)
 	}
 }
